@@ -119,7 +119,7 @@ def run(spec, cfg, workdir=None, workers=None, timeout=900, coverage=False, simu
         props = []
         if dfs_queue:
             props.append('tlc2.tool.queue.IStateQueue=StateDeque')
-        cmd = _java_cmd(props, heap)
+        cmd = _java_cmd(props, heap or os.environ.get('ZV_TLC_HEAP') or '6g')
         if simulate:
             cmd += ['-simulate', simulate]
             if depth:
